@@ -170,7 +170,24 @@ def formValue (body query : Option Bytes) : Bytes :=
   | some b => b
   | none => query.getD []
 
-/-! ## §4  `Router.WrapHTTPHandlers`
+/-- how the request body carries the form field (each at most once) -/
+inductive FormBody where
+  | absent                      -- no body
+  | urlenc (v : Bytes)          -- `application/x-www-form-urlencoded` body
+  | multipart (v : Bytes)       -- a field of a `multipart/form-data` body (`mime/multipart` is a parameter)
+  deriving DecidableEq, Repr
+
+/-- `r.FormValue(key)` over all three carriers of a form field.  `FormValue` runs `ParseMultipartForm`, which
+    first runs `ParseForm` (`r.Form` = urlencoded body values, then query values) and then APPENDS the values
+    of the multipart form: precedence urlencoded body > query string > multipart body (net/http documents
+    exactly this order).  So a multipart field stands behind the query value the way a query value stands
+    behind an urlencoded body value. -/
+def formValueOf : FormBody → Option Bytes → Bytes
+  | .absent, query => formValue none query
+  | .urlenc b, query => formValue (some b) query
+  | .multipart b, query => formValue query (some b)
+
+/-! ## §4 `Router.WrapHTTPHandlers`
 
 ```go
 var wrapped http.Handler
